@@ -1,12 +1,12 @@
 package props
 
 import (
-	"io"
 	"bytes"
 	"context"
 	"encoding/json"
 	"fmt"
 	"grol.io/grol/extensions"
+	"io"
 	"os"
 	"os/exec"
 	"runtime/debug"
